@@ -9,6 +9,7 @@ from fractions import Fraction as F
 import numpy as np
 
 TAG = "cartesian-zone-extend-reset"
+TAG_POLAR = "polar-lock-zone-downmix"
 EPS6 = F(1e-6)  # exact value of the double 1e-6
 AMB = F(1, 10 ** 9)  # closer than this to a threshold: float rounding may decide, the spec does not
 LOCK_TOL = 1e-5
@@ -348,6 +349,183 @@ def lock_spec(P, prio_keys, allowed, p, max_d, allo):
     return ("locked", min(close, key=lambda i: prio_keys[i]))
 
 
+def polar_probe_enabled():
+    """The polar lock + zoneExclusion predicate reports the recorded finding `polar-lock-zone-downmix`; it runs once
+    that entry is listed in known_findings.json (it is; the guard keeps an unlisted tree from alarming on a
+    standard-mandated behaviour)."""
+    from . import common
+
+    return any(k.get("classifier") == TAG_POLAR and k.get("property") == "C13" for k in common.load_known())
+
+
+def spec_downmix_rows(t, w, sm):
+    """Where the energy of loudspeaker `w` may go under the exclusion mask `sm` (some but not all excluded), recomputed
+    from the documented rule of ZoneExclusionDownmix (class docstring / BS.2127 6.4.2), not from the code under test:
+    candidate targets are keyed by (layer priority - same layer first, then upwards before downwards; front/back
+    change; Cartesian distance; front/back distance), targets with equal keys (1e-6) form a group, groups are taken in
+    key order and the energy is split equally between the non-excluded members of the first group that has one.
+
+    The rule says "equal" with a tolerance for grouping but the real sort compares the float keys exactly, so when
+    two groups tie in Cartesian distance up to rounding (e.g. from T+000 all upper-layer loudspeakers are at distance
+    1 +- 1 ulp) the order between them is decided by that rounding noise and not by the next key (front/back
+    distance). The documented rule does not determine the order there, so every order not *forced* by a key
+    component that differs by more than 1e-6 (with exactly equal integer components before it) is admissible.
+    Returns (admissible rows, the row of the tolerant-lexicographic order); each row is n power weights."""
+    eps = 1e-6
+    spk = t["spk"]  # nominal x y z az el
+    layer_prio = [[0, 1, 2, 3], [3, 0, 1, 2], [3, 2, 0, 1], [3, 2, 1, 0]]
+
+    def layer(s):
+        el = s[4]
+        return 0 if el < -10 else 1 if el < 10 else 2 if el < 75 else 3
+
+    def sign(x):
+        return 1 if x > eps else -1 if x < -eps else 0
+
+    src = spk[w]
+    keyed = []
+    for j, dst in enumerate(spk):
+        key = (layer_prio[layer(src)][layer(dst)], abs(sign(src[1]) - sign(dst[1])),
+               math.sqrt(sum((src[i] - dst[i]) ** 2 for i in range(3))), abs(src[1] - dst[1]))
+        keyed.append((key, j))
+    groups = []
+    for key, j in keyed:
+        for gkey, members in groups:
+            if all(abs(a - b) < eps for a, b in zip(key, gkey)):
+                members.append(j)
+                break
+        else:
+            groups.append((key, [j]))
+
+    def forced_before(h, g):
+        """group key h certainly sorts before g, whatever the rounding of the float components"""
+        for i in range(4):
+            if abs(h[i] - g[i]) >= eps:
+                return h[i] < g[i]
+            if i >= 2:
+                # a float component within the tolerance: the real exact comparison sees rounding noise here (the two
+                # values need not be bit-equal in numpy even when they are in this computation), so it may decide
+                # either way before the next component is looked at
+                return False
+        return False
+
+    def tol_key(k):
+        return tuple(round(x / eps) for x in k)  # tolerant lexicographic order (ties broken by the next component)
+
+    live = [(key, [j for j in members if not sm[j]]) for key, members in groups]
+    live = [(key, m) for key, m in live if m]
+    if not live:
+        return [], None
+
+    def row_of(m):
+        return [1.0 / len(m) if j in m else 0.0 for j in range(len(spk))]
+
+    admissible = [row_of(m) for key, m in live if not any(forced_before(k2, key) for k2, _m2 in live if k2 is not key)]
+    strict = row_of(min(live, key=lambda km: tol_key(km[0]))[1])
+    return admissible, strict
+
+
+def judge_polar_lock(acc, t, lay, o, direct, diffuse, lfe_ok, render_other, extra=None):
+    """The channel-lock predicate on one rendered POLAR point object `o` (with or without zoneExclusion).
+    `render_other(o2)` renders another block on an instance that is as fresh as the one that rendered `o`.
+
+    Expected loudspeaker: the documented rule (nearest, ties by priority) applied by the harness to ALL loudspeakers
+    of the layout - this is what the polar path does (the lock is called without the exclusion mask).
+      * nobody within maxDistance            -> gains equal the unlocked render exactly;
+      * excluded loudspeakers                -> exactly zero (when some but not all are excluded);
+      * locked loudspeaker w not excluded    -> exactly one loudspeaker, w;
+      * locked loudspeaker w excluded        -> the property wants one loudspeaker; the code moves w's energy to its
+        downmix group. The hit is tagged `polar-lock-zone-downmix` exactly when the independent classifier holds:
+        w is in the zone-membership mask AND the rendered power equals gain^2 x the downmix row of w recomputed by
+        `spec_downmix_row`. Every other deviation is an unlisted hit."""
+    from ear.core.geom import cart as to_cart
+
+    n = t["n"]
+    detail0 = dict(extra or {})
+    P = np.array(lay.without_lfe.norm_positions, dtype=float)
+    keys = [(abs(e), e, abs(a), a) for a, e in t["azel"]]
+    p = to_cart(o["position"]["azimuth"], o["position"]["elevation"], o["position"]["distance"])
+    exp = lock_spec(P, keys, [True] * n, p, o["lock"], False)
+    if exp[0] == "skip":
+        acc.count("lock: skipped, " + exp[1])
+        return
+    zones = o.get("zones") or []
+    sm = spec_mask(t, zones) if zones else [False] * n
+    if any(v is None for v in sm):
+        acc.count("lock polar+zones: skipped, zone membership ambiguous")
+        return
+    k = sum(1 for v in sm if v)
+    some_not_all = 0 < k < n
+    acc.count("lock render polar %s%s -> %s" % ("with maxDistance" if o["lock"] is not None else "no maxDistance",
+                                                " +zoneExclusion" if zones else "", exp[0]))
+    if some_not_all:
+        loud = [i for i in range(n) if sm[i] and not (direct[i] == 0.0 and diffuse[i] == 0.0)]
+        if loud or not lfe_ok:
+            acc.hit("excluded loudspeaker has non-zero gain", o,
+                    dict(detail0, channels=[t["names"][i] for i in loud], direct=[float(direct[i]) for i in loud],
+                         diffuse=[float(diffuse[i]) for i in loud], zone_mask="".join("01"[bool(v)] for v in sm)), [])
+            return
+    if exp[0] == "unchanged":
+        o2 = dict(o)
+        o2["lock"] = "off"
+        d2, f2 = render_other(o2)
+        if not (np.array_equal(direct, d2) and np.array_equal(diffuse, f2)):
+            acc.hit("channelLock with maxDistance: no loudspeaker within the distance but gains differ from the unlocked render", o,
+                    dict(detail0, locked_render=direct.tolist(), unlocked_render=d2.tolist()))
+        else:
+            acc.validated += 1
+        return
+    w = exp[1]
+    gain = o.get("gain", 1.0)
+    power = direct ** 2 + diffuse ** 2
+    others = max([max(abs(direct[i]), abs(diffuse[i])) for i in range(n) if i != w] or [0.0])
+    one = bool(lfe_ok and abs(math.sqrt(power[w]) - gain) <= 1e-9 and others <= 1e-9)
+    if not (sm[w] and some_not_all):
+        if one:
+            acc.validated += 1
+            if zones:
+                acc.count("lock polar+zones: locked loudspeaker not excluded -> one loudspeaker")
+        else:
+            got = int(np.argmax(power))
+            acc.hit("channelLock: not reproduced by exactly the nearest loudspeaker (documented distance/priority)", o,
+                    dict(detail0, expected=t["names"][w], loudest=t["names"][got], direct=direct.tolist(),
+                         diffuse=diffuse.tolist()))
+        return
+    # the locked loudspeaker is excluded
+    rows, strict_row = spec_downmix_rows(t, w, sm)
+    row = next((r for r in rows if lfe_ok and
+                all(abs(power[j] - gain * gain * r[j]) <= 1e-9 * max(1.0, gain * gain) for j in range(n))), None)
+    matches = row is not None
+    if matches and row != strict_row:
+        acc.count("noted: zone downmix group order decided by rounding noise in the Cartesian distance key "
+                  "(exact float sort vs 1e-6 grouping), e.g. from %s" % t["names"][w])
+    if row is None:
+        row = strict_row
+    nz = [j for j in range(n) if row and row[j] > 0.0]
+    # the property read on the loudspeakers the zone list leaves: one loudspeaker, the nearest non-excluded one
+    exp2 = lock_spec(P, keys, [not b for b in sm], p, o["lock"], False)
+    if exp2[0] == "locked":
+        s2 = exp2[1]
+        others2 = max([max(abs(direct[i]), abs(diffuse[i])) for i in range(n) if i != s2] or [0.0])
+        if lfe_ok and abs(math.sqrt(power[s2]) - gain) <= 1e-9 and others2 <= 1e-9:
+            acc.count("lock polar+zones: locked loudspeaker excluded, whole gain on the nearest non-excluded one (holds)")
+            acc.validated += 1
+            return
+    if matches:
+        acc.count("lock polar+zones: locked loudspeaker excluded -> downmix group of %d" % len(nz))
+        acc.hit("polar channelLock with zoneExclusion: the locked (nearest) loudspeaker is excluded and its energy is "
+                "moved to its zone-downmix group instead of one nearest loudspeaker", o,
+                dict(detail0, locked=t["names"][w], zone_mask="".join("01"[bool(v)] for v in sm),
+                     downmix_group=[t["names"][j] for j in nz], direct=direct.tolist(), diffuse=diffuse.tolist()),
+                [TAG_POLAR])
+    else:
+        acc.hit("polar channelLock with zoneExclusion: gains are neither one loudspeaker nor the zone downmix row of the "
+                "locked loudspeaker", o,
+                dict(detail0, locked=t["names"][w], zone_mask="".join("01"[bool(v)] for v in sm),
+                     expected_power=[gain * gain * x for x in row] if row else None, direct=direct.tolist(),
+                     diffuse=diffuse.tolist()))
+
+
 # ----------------------------------------------------------------------------- search workers
 
 _GC = {}
@@ -536,6 +714,7 @@ def task_lock(args):
     P = np.array(t["allo"]) if cart else np.array(wl.norm_positions, dtype=float)
     keys = [(abs(e), e, abs(a), a) for a, e in t["azel"]]
     path = "cartesian" if cart else "polar"
+    polar_zones = polar_probe_enabled()
     for _ in range(count):
         pos, pk = gen_lock_position(rng, P, "a" if cart else "e")
         o = dict(layout=layout_name, cartesian=cart, gain=rng.choice([1.0, rng.uniform(0.1, 2.0)]),
@@ -575,6 +754,24 @@ def task_lock(args):
             exp = lock_spec(P, keys, allowed, p, lock, cart)
         if exp[0] == "skip":
             acc.count("lock: skipped, " + exp[1])
+            continue
+        if not cart:
+            # polar path: the lock is applied to ALL loudspeakers, the zone downmix afterwards (judge_polar_lock)
+            if polar_zones and rng.random() < 0.45:
+                if rng.random() < 0.5:
+                    # a small polar range around the nominal direction of the loudspeaker nearest to the object
+                    w0 = int(np.argmin(np.linalg.norm(P - p, axis=1)))
+                    a0, e0 = t["spk"][w0][3], t["spk"][w0][4]
+                    r = rng.choice([5.0, 10.0, 25.0, 45.0])
+                    o["zones"] = [dict(t="p", minAzimuth=a0 - r, maxAzimuth=a0 + r, minElevation=max(-90.0, e0 - r),
+                                       maxElevation=min(90.0, e0 + r))]
+                else:
+                    o["zones"], _ = gen_zone_list(rng, t)
+            direct, diffuse, lfe_ok = _render(gc, lay, o)
+            acc.case(o, sample={"predicate": "channel lock (polar: lock, pan, zone downmix)", "object": o, "expected": exp})
+            acc.count("lock render %s %s" % (layout_name, path))
+            acc.count("lock render %s position:%s" % (path, pk))
+            judge_polar_lock(acc, t, lay, o, direct, diffuse, lfe_ok, lambda o2: _render(gc, lay, o2)[:2])
             continue
         direct, diffuse, lfe_ok = _render(gc, lay, o)
         acc.case(o, sample={"predicate": "channel lock", "object": o, "expected": exp})
@@ -679,7 +876,8 @@ def lock_expect(t, lay, o):
             allowed = [True] * n if all(ext) else [not b for b in ext]
     else:
         if o.get("zones"):
-            return ("skip", "polar lock with zones: the downmix may spread the locked gain")
+            # judged by judge_polar_lock when the recorded finding is listed (polar_probe_enabled); disclosed otherwise
+            return ("skip", "polar lock with zones: not judged here (see judge_polar_lock)")
         P = np.array(lay.without_lfe.norm_positions, dtype=float)
         p = to_cart(o["position"]["azimuth"], o["position"]["elevation"], o["position"]["distance"])
     return lock_spec(P, keys, allowed, p, o["lock"], cart)
@@ -740,6 +938,7 @@ def task_sequence(args):
     pristine = GainCalc(bs2051.get_layout(layout_name))  # never renders; deep copies of it are the fresh instances
     acc = Acc()
     n = t["n"]
+    polar_zones = polar_probe_enabled()
     for s in range(count):
         blocks = gen_sequence(rng, t, layout_name, with_trigger=(s % 2 == 0))
         shared = copy.deepcopy(pristine) if s % 3 else GainCalc(bs2051.get_layout(layout_name))
@@ -784,7 +983,11 @@ def task_sequence(args):
                     else:
                         acc.validated += 1
             # lock predicate (point objects)
-            if "lock" in o and not (o.get("width") or o.get("height") or o.get("depth") or o.get("divergence")):
+            if ("lock" in o and not o["cartesian"] and polar_zones and
+                    not (o.get("width") or o.get("height") or o.get("depth") or o.get("divergence"))):
+                judge_polar_lock(acc, t, lay, o, direct, diffuse, lfe_ok,
+                                 lambda o2: _render(copy.deepcopy(pristine), lay, o2)[:2], extra={"in_sequence": True})
+            elif "lock" in o and not (o.get("width") or o.get("height") or o.get("depth") or o.get("divergence")):
                 exp = lock_expect(t, lay, o)
                 if exp[0] == "locked":
                     w = exp[1]
@@ -857,12 +1060,14 @@ def run_search(ctx, deep):
         ctx.validated(acc.validated)
         renders += len(acc.cases)
         for what, inp, detail, tags in acc.hits:
-            ntag = sum(1 for h in ctx.hits if h["tags"])
-            if tags and ntag >= 25:
+            # at most 15 reproductions of each recorded finding are kept per run (every unlisted hit is kept)
+            ntag = sum(1 for h in ctx.hits if tags and tags[0] in h["tags"])
+            if tags and ntag >= 15:
                 continue
             ctx.hit(what, inp, detail, tags)
     ctx.count("search objects rendered and judged", renders)
     _probe_witness(ctx)
+    _probe_witness_polar(ctx)
     _probe_noted(ctx)
 
 
@@ -878,6 +1083,35 @@ def _probe_witness(ctx):
         "excluded loudspeakers get gain (known finding reproduced)" if acc.hits else "silent"))
     for what, inp, detail, tags in acc.hits:
         ctx.hit(what, inp, detail, tags)
+    ctx.validated(acc.validated)
+
+
+def _probe_witness_polar(ctx):
+    """The input of the Lean counter-example theorem `polar_lock_zone_two_speakers_witness` (known finding
+    `polar-lock-zone-downmix`), rendered by the real code on every run and judged by the same predicate and
+    classifier as every generated polar lock + zoneExclusion case."""
+    if not polar_probe_enabled():
+        ctx.count("polar lock + zoneExclusion: NOT judged (finding polar-lock-zone-downmix not listed in known_findings.json)")
+        return
+    gc, lay, t = _gain_calc("0+5+0")
+    o = dict(layout="0+5+0", cartesian=False, position=dict(azimuth=0.0, elevation=0.0, distance=1.0), lock=None,
+             zones=[dict(t="p", minAzimuth=-10.0, maxAzimuth=10.0, minElevation=-10.0, maxElevation=10.0)])
+    acc = Acc()
+    direct, diffuse, lfe_ok = _render(gc, lay, o)
+    judge_polar_lock(acc, t, lay, o, direct, diffuse, lfe_ok, lambda o2: _render(gc, lay, o2)[:2],
+                     extra={"witness_of": "Earverif.C13.polar_lock_zone_two_speakers_witness"})
+    tagged = [h for h in acc.hits if TAG_POLAR in h[3]]
+    two = bool(abs(direct[0] - math.sqrt(0.5)) <= 1e-12 and abs(direct[1] - math.sqrt(0.5)) <= 1e-12 and
+               not direct[2:].any() and not diffuse.any())
+    ctx.count("witness of polar_lock_zone_two_speakers_witness on the real code: %s" % (
+        "M+030 and M-030 get sqrt(1/2) each, locked M+000 silent (known finding reproduced)" if tagged and two
+        else "gains %r (model theorem says [sqrt(1/2), sqrt(1/2), 0, 0, 0])" % (direct.tolist(),)))
+    for what, inp, detail, tags in acc.hits:
+        ctx.hit(what, inp, detail, tags)
+    if not two:
+        # the Lean witness theorem is about the model; if the code no longer does this the model is out of date
+        ctx.disagree("polar_lock_zone_two_speakers_witness (model) vs GainCalc.render", o,
+                     [math.sqrt(0.5), math.sqrt(0.5), 0.0, 0.0, 0.0], direct.tolist())
     ctx.validated(acc.validated)
 
 
